@@ -206,7 +206,9 @@ func (e *Engine) checkInverted(
 	check = withFreshVisited(check)
 
 	return func(ctx context.Context, resultCh chan<- checkgroup.Result) {
-		innerCh := make(chan checkgroup.Result)
+		// Buffered, so that the inner check can deliver its result and exit even
+		// if we already returned because the context is done.
+		innerCh := make(chan checkgroup.Result, 1)
 		go check(ctx, innerCh)
 		select {
 		case result := <-innerCh:
